@@ -2,6 +2,7 @@ import PycModel.Proto
 import PycModel.Lexer
 import PycModel.Parser.Stmt
 import PycModel.Generator
+import PycModel.Reflect
 import PycModel.Spec.Expr
 import PycModel.Spec.Decl
 import PycModel.Spec.Stmt
@@ -115,6 +116,15 @@ def handle (line : String) : String :=
         go5 n (Spec.lcg r2.2) (Spec.stmtCase [r1.1, r2.1] :: acc)
     let cases := go5 count.toNat! (Spec.lcg (seed.toNat! + 11)) []
     "\t".intercalate (cases.map fun (t, d) => rec [t, d])
+  | ["reflect", file, text, xs] =>
+    match (parseText Generated.lexCfg 100000 text file).1 with
+    | .ast v =>
+      let fuel := v.size + 1
+      let over := Cls.all.filter fun c => (xs.splitOn ",").contains c.name
+      let w := visitWith over fuel v
+      "OK\t" ++ toString (reach fuel v) ++ "\t" ++ " ".intercalate ((visitTrace fuel v).map Cls.name) ++ "\t" ++
+        toString (showLines fuel 0 v).length ++ "\t" ++ toString w.1.length ++ "\t" ++ toString w.2.length
+    | _ => "NOPARSE"
   | op :: _ => "BADOP " ++ op
   | [] => "BADOP"
 
